@@ -66,6 +66,10 @@ void GlobalGraph::edgeMustExist_(const GlobalGraph::Edge& edge, string name) con
 
 GlobalGraph::Edge GlobalGraph::link(Graph::NodeId nodeA, Graph::NodeId nodeB)
 {
+  // the nodes have to exist
+  nodeMustExist_(nodeA, "first node");
+  nodeMustExist_(nodeB, "second node");
+
   // which ID is available?
   GlobalGraph::Edge edgeID = highestEdgeID_++;
 
@@ -83,6 +87,10 @@ void GlobalGraph::link(Graph::NodeId nodeA, Graph::NodeId nodeB, GlobalGraph::Ed
 {
   if (edgeStructure_.find(edgeID) != edgeStructure_.end())
     throw Exception("GlobalGraph::link : already existing edgeId " + TextTools::toString(edgeID));
+
+  // the nodes have to exist
+  nodeMustExist_(nodeA, "first node");
+  nodeMustExist_(nodeB, "second node");
 
   // writing the new relation to the structure
   linkInNodeStructure_(nodeA, nodeB, edgeID);
@@ -231,6 +239,9 @@ Graph::NodeId GlobalGraph::createNode()
 
 Graph::NodeId GlobalGraph::createNodeFromNode(Graph::NodeId origin)
 {
+  // origin must be an existing node
+  nodeMustExist_(origin, "origin node");
+
   Graph::NodeId newNode = createNode();
   link(origin, newNode);
   this->topologyHasChanged_();
